@@ -8,20 +8,133 @@ import DoitModel.Proofs.C12Examples
 
 Property theorems only (model: `Model/Sel.lean`; lemmas: `Proofs/Sel.lean`, `Proofs/SelSingle.lean`,
 `Proofs/SelClosure.lean`, `Proofs/SelClosed.lean`; the order clause on the run model M1: `Proofs/C12*.lean`).  Quantification: every task set, every argument list, with / without `default_tasks`,
-with / without `--single`.  Strings are `List Char`; patterns are over `*`, `?` and literal characters. -/
+with / without `--single`.  Strings are `List Char`; patterns are the whole of `fnmatch` (`*`, `?`, bracket classes, literals). -/
 namespace DoitModel.C12
 open DoitModel.Sel
 
 /-! ## patterns -/
 
-/-- the model of `fnmatch` decides the declarative matching relation -/
-theorem glob_spec (p s : Tok) : glob p s = true ↔ GlobMatch p s := glob_iff p s
+/-- **glob_spec_full**: the model of `fnmatch` decides the declarative matching relation `Matches` — `*`, `?`, bracket
+    classes as CPython 3.12's `fnmatch.translate` delimits (`splitClass`) and reads (`inClass`) them, an unclosed `[` and
+    all other characters literal — for every pattern and every string -/
+theorem glob_spec_full (p s : Tok) : glob p s = true ↔ Matches p s := glob_iff_matches p s
+
+example : glob "[!a-c]x[]]*".toList "dx]yz".toList = true ∧ glob "[!a-c]x".toList "bx".toList = false := by decide
+
+/-- a pattern without `[` means what it meant before classes were modelled: `*` any string, `?` any one character,
+    everything else itself -/
+theorem glob_spec (p s : Tok) (h : '[' ∉ p) : glob p s = true ↔ GlobMatch p s := glob_iff p s h
+
+example : glob "a*?".toList "abc".toList = true ∧ GlobMatch "a*?".toList "abc".toList := by
+  refine ⟨by decide, (glob_spec _ _ (by decide)).1 (by decide)⟩
+
+/-- consecutive `*` mean what one `*` means (`fnmatch.translate` compresses them before it builds the expression) -/
+theorem star_star (p s : Tok) : glob ('*' :: '*' :: p) s = glob ('*' :: p) s := by
+  have h : Matches ('*' :: '*' :: p) s ↔ Matches ('*' :: p) s := by
+    constructor
+    · intro h
+      cases h with
+      | star _ pre1 s1 _ he1 h1 =>
+        cases h1 with
+        | star _ pre2 s2 _ he2 h2 =>
+          exact Matches.star p (pre1 ++ pre2) s2 _ (by rw [he1, he2, List.append_assoc]) h2
+        | lit _ _ _ hne => exact absurd rfl hne
+      | lit _ _ _ hne => exact absurd rfl hne
+    · intro h
+      exact Matches.star _ [] s _ rfl h
+  have := (glob_iff_matches ('*' :: '*' :: p) s).trans (h.trans (glob_iff_matches ('*' :: p) s).symm)
+  cases h1 : glob ('*' :: '*' :: p) s <;> cases h2 : glob ('*' :: p) s <;> simp_all
+
+example : glob "a**b".toList "axyb".toList = true := by decide
+
+/-- a `[` with no `]` after it (other than one right behind it or behind `[!`) is an ordinary character, and the
+    characters after it are read as pattern characters again -/
+theorem unclosed_bracket_literal (p s : Tok) (h : splitClass p = none) :
+    Matches ('[' :: p) s ↔ ∃ s', s = '[' :: s' ∧ Matches p s' := by
+  constructor
+  · intro hm
+    cases hm with
+    | cls _ _ _ _ _ hs => rw [h] at hs; cases hs
+    | openLit _ s' _ hm => exact ⟨s', rfl, hm⟩
+    | lit _ _ _ _ _ hne => exact absurd rfl hne
+  · rintro ⟨s', rfl, hm⟩; exact Matches.openLit p s' h hm
+
+example : splitClass "]a*".toList = none ∧ splitClass "!]".toList = none ∧ glob "[]a*".toList "[]abc".toList = true := by
+  decide
+
+/-- a class without hyphen and without leading `!` is the set of its characters (backslash included: nothing escapes) -/
+theorem class_plain (body : Tok) (d : Char) (h1 : '-' ∉ body) (h2 : body.head? ≠ some '!') :
+    inClass body d = true ↔ d ∈ body := by
+  unfold inClass
+  have : body.contains '-' = false := by simpa using h1
+  simp only [this, Bool.false_eq_true, if_false]
+  split
+  · simp at h2
+  · simp
+
+example : inClass "]a\\".toList '\\' = true ∧ inClass "]a".toList ']' = true ∧ inClass "]a".toList 'b' = false := by decide
+
+/-- `[!seq]` without hyphen: every character not in `seq` -/
+theorem class_negated (m : Tok) (d : Char) (h1 : '-' ∉ m) : inClass ('!' :: m) d = true ↔ d ∉ m := by
+  unfold inClass
+  have : ('!' :: m).contains '-' = false := by simpa using h1
+  simp only [this, Bool.false_eq_true, if_false]
+  simp
+
+example : inClass "!]".toList 'x' = true ∧ inClass "!]".toList ']' = false := by decide
+
+/-- `[a-b]` is the range from `a` to `b` in code-point order, and nothing when `a > b` (an "empty range" never matches) -/
+theorem class_range (a b d : Char) (ha : a ≠ '!') : inClass [a, '-', b] d = true ↔ a ≤ d ∧ d ≤ b := by
+  have hk : mergeR (fixLast (chunksGo (if [a,'-',b].head? = some '!' then 2 else 1) [] [a,'-',b]))
+      = if a > b then [[]] else [[a],[b]] := by
+    simp [ha, chunksGo, fixLast, mergeR]
+  unfold inClass
+  rw [hk]
+  have hc : [a, '-', b].contains '-' = true := by simp
+  simp only [hc, if_true]
+  by_cases hab : a > b
+  · simp only [hab, if_true]
+    simp [inChunks, inRanges]
+    intro h1
+    exact Nat.lt_of_lt_of_le hab h1
+  · simp only [hab, if_false]
+    split
+    · rename_i h; simp at h
+    · rename_i h; simp at h; exact absurd h.1.1 ha
+    · simp [inChunks, inRanges]
+      have hab' : a ≤ b := Char.not_lt.1 hab
+      rintro (rfl | rfl)
+      · exact ⟨Char.le_refl _, hab'⟩
+      · exact ⟨hab', Char.le_refl _⟩
+
+example : inClass ['a', '-', 'c'] 'b' = true ∧ ∀ d, inClass ['c', '-', 'a'] d = false := by
+  refine ⟨by decide, fun d => ?_⟩
+  cases h : inClass ['c', '-', 'a'] d with
+  | false => rfl
+  | true =>
+    have := (class_range 'c' 'a' d (by decide)).1 h
+    exact absurd (Char.le_trans this.1 this.2) (by decide)
+
+/-- corner cases of `fnmatch.translate`, evaluated: an empty range never matches, also inside a pattern; a negated empty
+    range matches every character; the `!` test is made on what is left after the removal of the empty ranges (`[b-a!]`
+    matches every character, `[b-a!x]` is `[!x]`, `[b-a!-z]` is "not `-`, not `z`"); a hyphen first, last or after a
+    range is a literal; `[a-c-e]` is `a`..`c`, `-`, `e` -/
+theorem class_corner_cases :
+    (∀ d ∈ "ab-]![".toList, inClass "b-a".toList d = false) ∧ glob "x[b-a]".toList "xa".toList = false
+    ∧ (∀ d ∈ "ab-]![".toList, inClass "!b-a".toList d = true ∧ inClass "b-a!".toList d = true)
+    ∧ inClass "b-a!x".toList 'x' = false ∧ inClass "b-a!x".toList '!' = true
+    ∧ inClass "b-a!-z".toList '-' = false ∧ inClass "b-a!-z".toList 'z' = false ∧ inClass "b-a!-z".toList 'm' = true
+    ∧ inClass "-a".toList '-' = true ∧ inClass "a-".toList '-' = true ∧ inClass "a-c-e".toList '-' = true
+    ∧ inClass "a-c-e".toList 'd' = false ∧ inClass "a-c-e".toList 'b' = true := by decide
 
 /-- a pattern stands for all matching task names, in definition order -/
 theorem wild_spec (ts : List Task) (p : Tok) :
-    (∀ x, x ∈ wild ts p ↔ x ∈ names ts ∧ GlobMatch p x) ∧ List.Sublist (wild ts p) (names ts) := by
+    (∀ x, x ∈ wild ts p ↔ x ∈ names ts ∧ Matches p x) ∧ List.Sublist (wild ts p) (names ts) := by
   refine ⟨fun x => ?_, List.filter_sublist⟩
-  simp [wild, List.mem_filter, glob_iff]
+  simp [wild, List.mem_filter, glob_iff_matches]
+
+example : wild [{ name := "a1".toList }, { name := "b1".toList }, { name := "a[1]".toList }] "[ab]1*".toList
+    = ["a1".toList, "b1".toList] := by decide
 
 /-- only `*` makes a task_dep entry a pattern: an entry without `*` — also one containing `?`, `[` or `]`, which are
     legal in task names — is a literal task name and is kept as it is (no matching is done for it) -/
